@@ -804,8 +804,14 @@ def gen_deep_locus(src, with_annotation=True, max_reads=2500, chrom="chr1", extr
     special = []
     for _ in range(src.int(1, 4)):
         k += 1
-        kind = src.choice(["last_bin", "last_bin", "border", "first_bin"])
-        if kind == "last_bin":
+        kind = src.choice(["last_bin", "last_bin", "border", "first_bin", "valley_bin", "valley_bin"])
+        if kind == "valley_bin":
+            # wholly inside the first bin at which the cluster may be cut (128 bins after its first covered bin): the
+            # bin is a valley only while its depth (bridges + this read) stays within 1 % of the pile-up
+            vb = start_bin + 128 + src.choice([0, 0, 0, 1])
+            s0 = vb * BIN + src.int(3, 60)
+            e0 = min((vb + 1) * BIN - 2, s0 + src.int(40, 150))
+        elif kind == "last_bin":
             lb = (cluster_end - 1) // BIN
             s0 = lb * BIN + src.choice([0, 1, 2, 5, 30])
             e0 = min(cluster_end, s0 + src.int(20, 200))
